@@ -5,40 +5,640 @@ import TddaVerif.Props.C03Spec
 import TddaVerif.Lemmas.RexpySound
 
 namespace TddaVerif.Props.C03.SampledLemmas
-open TddaVerif.Py TddaVerif.Rexpy TddaVerif.Props.C03
+open TddaVerif.Py TddaVerif.Rexpy TddaVerif.Props.C03 TddaVerif.Props.C03.Lemmas
+
+set_option linter.unusedSimpArgs false
+set_option linter.unusedVariables false
 
 /-- what is assumed of `random.sample(l, k)`: it returns elements of `l`, and at least one when asked for at
     least one of a non-empty list -/
 def PickOK (pick : Pick) : Prop :=
   ∀ ev k l, (∀ x ∈ pick ev k l, x ∈ l) ∧ (1 ≤ k → l ≠ [] → pick ev k l ≠ [])
 
-/-- when the loop ends, every (cleaned) example is matched in full by one of the patterns it ends with -/
+/-- `batchExtract` is `batchExtractE` at the extra letters thinned against its own examples -/
 theorem batchExtract_eq_E (T : CharTable) (o : Opts) (cl : Cleaned) :
     batchExtract T o cl = (batchExtractE T o (thinExtras o.extras cl.strings) cl).map
       (fun ps => (ps, thinExtras o.extras cl.strings)) := by
-  sorry
+  unfold batchExtract batchExtractE
+  simp only [Option.map_map]
+  rfl
 
-theorem sampledLoop_covers (T : CharTable) (o : Opts) (cfg : SampleCfg) (pick : Pick) (hp : PickOK pick)
+theorem wrapP_eq_wrapWs (w : Bool) (p : Pattern) : wrapP w p = wrapWs w p := rfl
+
+/-! ### the batch pipeline for arbitrary extra letters `E`
+
+`RexpySound.lean` assembles the stage lemmas for `batchExtract`, whose extra letters are
+`thinExtras o.extras cl.strings`; the stage lemmas themselves are generic in `E`, and are re-assembled here for
+`batchExtractE`.  (`coarse_sound` there asks for `E = normExtras E` but does not use it; it is re-proved here without
+that hypothesis, so nothing below restricts `E`.) -/
+
+theorem coarse_sound' (T : CharTable) (hT : Consistent T) (E : List Char) (c : Char) :
+    inCat T E (coarse T E c) c = true := by
+  unfold coarse
+  split
+  · assumption
+  · split
+    · assumption
+    · split
+      · assumption
+      · rename_i h1 h2 h3
+        rw [inCat_cUAlpha] at h1
+        rw [inCat_cWhite] at h2
+        rw [inCat_cPunc] at h3
+        rw [inCat_cOther]
+        have h2' : T.s c = false := by simpa using h2
+        simp only [h2', Bool.not_false, Bool.and_true, Bool.not_eq_true', Bool.and_eq_false_iff,
+          decide_eq_false_iff_not]
+        by_cases hr : 33 ≤ c.toNat ∧ c.toNat ≤ 126
+        · exfalso
+          obtain ⟨hr1, hr2⟩ := hr
+          have hr0 : 32 ≤ c.toNat := by omega
+          simp [h2', hr0, hr2] at h3
+          simp at h1
+          obtain ⟨hw, hin⟩ := h1
+          by_cases hal : asciiUpper c = true ∨ asciiLower c = true ∨ asciiDigit c = true
+          · have hwc : T.w c = true := hT.1 c (by rcases hal with h | h | h <;> simp [h])
+            obtain ⟨rfl, -⟩ := hw hwc
+            revert hal; decide
+          · have hcE : c ∈ E := h3 (by simpa using fun h => hal (Or.inl h))
+              (by simpa using fun h => hal (Or.inr (Or.inl h)))
+              (by simpa using fun h => hal (Or.inr (Or.inr h)))
+            have hc := hin hcE
+            subst hc
+            exact (hw (hT.1 '_' (by simp))).2 hcE
+        · omega
+
+theorem coarseRle_runs' (T : CharTable) (hT : Consistent T) (E : List Char) (s : Line) :
+    ∃ f : Char → Char, Runs f (coarseRle T E s) s ∧ ∀ c, inCat T E (f c) c = true := by
+  unfold coarseRle
+  simp only
+  split
+  · exact ⟨coarse T E, runs_rle _ s, coarse_sound' T hT E⟩
+  · exact ⟨fun _ => cAny, runs_rle _ s, fun c => inCat_cAny T E c⟩
+
+def gRles (T : CharTable) (E : List Char) (cl : Cleaned) : List (List (Char × Nat)) :=
+  cl.strings.map (coarseRle T E)
+
+def gVrles (T : CharTable) (E : List Char) (cl : Cleaned) : List Vrle := toVrles (gRles T E cl).eraseDups
+
+/-- the examples of the signature group of `v` -/
+def gEx (T : CharTable) (E : List Char) (cl : Cleaned) (v : Vrle) : List Line :=
+  (cl.strings.zip (gRles T E cl)).filterMap (fun sr => if sigOf sr.2 == sigOf v then some sr.1 else none)
+
+def gF (T : CharTable) (o : Opts) (E : List Char) (cl : Cleaned) (v : Vrle) : Option Pattern :=
+  refineVrle T E o.vlf o.sizes (decide (cl.nStripped > 0)) v (gEx T E cl v)
+
+theorem batchExtractE_eq (T : CharTable) (o : Opts) (E : List Char) (cl : Cleaned) :
+    batchExtractE T o E cl = ((gVrles T E cl).mapM (gF T o E cl)).map merged := rfl
+
+/-- `batchExtractE` looks only at the strings and at whether anything was stripped -/
+theorem batchExtractE_congr (T : CharTable) (o : Opts) (E : List Char) (cl cl' : Cleaned)
+    (hs : cl.strings = cl'.strings) (hn : decide (cl.nStripped > 0) = decide (cl'.nStripped > 0)) :
+    batchExtractE T o E cl = batchExtractE T o E cl' := by
+  unfold batchExtractE
+  simp only [hs, hn]
+
+theorem mem_gEx (T : CharTable) (E : List Char) (cl : Cleaned) (v : Vrle) (e : Line) :
+    e ∈ gEx T E cl v ↔ e ∈ cl.strings ∧ sigOf (coarseRle T E e) = sigOf v := by
+  have := mem_zip_filterMap cl.strings (coarseRle T E) (fun r => sigOf r == sigOf v) e
+  simpa [gEx, gRles] using this
+
+theorem gRles_pos (T : CharTable) (E : List Char) (cl : Cleaned) :
+    ∀ r ∈ (gRles T E cl).eraseDups, ∀ x ∈ r, 0 < x.2 := by
+  intro r hr
+  obtain ⟨s, -, rfl⟩ := List.mem_map.1 (List.mem_eraseDups.1 hr)
+  exact coarseRle_pos T _ s
+
+theorem cover_of_stringE (T : CharTable) (hT : Consistent T) (E : List Char) (cl : Cleaned) (s : Line)
+    (hs : s ∈ cl.strings) :
+    ∃ v ∈ gVrles T E cl, sigOf v = sigOf (coarseRle T E s) ∧ Matches T E (fragsOfVrle v) s := by
+  have hr : coarseRle T E s ∈ (gRles T E cl).eraseDups :=
+    List.mem_eraseDups.2 (List.mem_map.2 ⟨s, hs, rfl⟩)
+  obtain ⟨v, hv, hcov⟩ := toVrles_covers _ (gRles_pos T E cl) _ hr
+  obtain ⟨f, hruns, hf⟩ := coarseRle_runs' T hT E s
+  exact ⟨v, hv, hcov.1, matches_of_covers T _ f v _ s hcov hruns (fun c _ => hf c)⟩
+
+/-- every example of a signature group is matched by the (wrapped) coarse pattern of the group's VRLE -/
+theorem gEx_matches (T : CharTable) (hT : Consistent T) (E : List Char) (cl : Cleaned) (w : Bool) (v : Vrle)
+    (hv : v ∈ gVrles T E cl) : ∀ e ∈ gEx T E cl v, Matches T E (wrapWs w (fragsOfVrle v)) e := by
+  intro e he
+  obtain ⟨hes, hsig⟩ := (mem_gEx T E cl v e).1 he
+  obtain ⟨v', hv', hsig', hm⟩ := cover_of_stringE T hT E cl e hes
+  have : v' = v := toVrles_sig_unique _ v' v hv' hv (hsig'.trans hsig)
+  subst this
+  exact matches_wrap T _ _ _ e hm
+
+/-- refinement succeeds (the `assert m is not None` holds) whenever the coarse pattern matches the examples;
+    the Size settings play no role in this -/
+theorem refineVrle_some (T : CharTable) (E : List Char) (vlf : Bool) (sz : Sizes) (wsWrap : Bool) (v : Vrle)
+    (examples : List Line) (hm : ∀ e ∈ examples, Matches T E (wrapWs wsWrap (fragsOfVrle v)) e) :
+    ∃ p, refineVrle T E vlf sz wsWrap v examples = some p := by
+  obtain ⟨caps, hcaps, -, -⟩ := mapM_some (fun e => (matchCap T E (wrapWs wsWrap (fragsOfVrle v)) e).map
+        (fun r => if wsWrap then (r.drop 1).take v.length else r)) examples (by
+    intro e he
+    obtain ⟨r, pre, inner, post, hr, -⟩ := example_pieces T E wsWrap v e (hm e he)
+    exact ⟨_, by rw [hr]; rfl⟩)
+  exact ⟨blocks T E vlf sz v caps, by rw [refineVrle_eq, hcaps]; rfl⟩
+
+theorem gF_sound (T : CharTable) (hT : Consistent T) (o : Opts) (hsz : 1 ≤ o.sizes.maxStringsInGroup)
+    (E : List Char) (cl : Cleaned) (v : Vrle) (hv : v ∈ gVrles T E cl) :
+    ∃ p, gF T o E cl v = some p ∧
+      ∀ e ∈ gEx T E cl v, Matches T E (wrapWs (decide (cl.nStripped > 0)) p) e :=
+  refineVrle_sound T hT _ _ _ hsz _ _ _ (gEx_matches T hT E cl _ v hv)
+
+theorem gEx_nonempty (T : CharTable) (E : List Char) (cl : Cleaned) (v : Vrle) (hv : v ∈ gVrles T E cl) :
+    ∃ s, s ∈ gEx T E cl v := by
+  obtain ⟨r, hr, hsig⟩ := toVrles_from _ v hv
+  obtain ⟨s, hs, rfl⟩ := List.mem_map.1 (List.mem_eraseDups.1 hr)
+  exact ⟨s, (mem_gEx T E cl v s).2 ⟨hs, hsig⟩⟩
+
+/-- no internal assertion of a pass fails (for any Size settings and any extra letters) -/
+theorem batchE_some (T : CharTable) (hT : Consistent T) (o : Opts) (E : List Char) (cl : Cleaned) :
+    ∃ ps, batchExtractE T o E cl = some ps := by
+  obtain ⟨qs, hqs, -, -⟩ := mapM_some (gF T o E cl) (gVrles T E cl) (fun v hv =>
+    refineVrle_some T E _ _ _ v _ (gEx_matches T hT E cl _ v hv))
+  exact ⟨merged qs, by rw [batchExtractE_eq, hqs]; rfl⟩
+
+theorem batchE_parts (T : CharTable) (o : Opts) (E : List Char) (cl : Cleaned) (ps : List Pattern)
+    (h : batchExtractE T o E cl = some ps) :
+    ∃ qs, (gVrles T E cl).mapM (gF T o E cl) = some qs ∧ ps = merged qs := by
+  rw [batchExtractE_eq] at h
+  cases hq : (gVrles T E cl).mapM (gF T o E cl) with
+  | none => simp [hq] at h
+  | some qs =>
+    simp only [hq, Option.map_some, Option.some.injEq] at h
+    exact ⟨qs, rfl, h.symm⟩
+
+/-- one pass is sound for the working examples it was given -/
+theorem batchE_sound (T : CharTable) (hT : Consistent T) (o : Opts) (hsz : 1 ≤ o.sizes.maxStringsInGroup)
+    (E : List Char) (cl : Cleaned) (ps : List Pattern) (h : batchExtractE T o E cl = some ps) :
+    ∀ s ∈ cl.strings, ∃ p ∈ ps, Matches T E (wrapWs (decide (cl.nStripped > 0)) p) s := by
+  obtain ⟨qs, hqs, rfl⟩ := batchE_parts T o E cl ps h
+  intro s hs
+  obtain ⟨v, hv, hsig, -⟩ := cover_of_stringE T hT E cl s hs
+  obtain ⟨p, hp, hm⟩ := gF_sound T hT o hsz E cl v hv
+  obtain ⟨qs', hqs', h1, -⟩ := mapM_some (gF T o E cl) (gVrles T E cl) (fun v hv => by
+    obtain ⟨p, hp, -⟩ := gF_sound T hT o hsz E cl v hv
+    exact ⟨p, hp⟩)
+  rw [hqs] at hqs'
+  obtain rfl : qs = qs' := Option.some.inj hqs'
+  obtain ⟨p', hp', hpf⟩ := h1 v hv
+  rw [hp] at hpf
+  obtain rfl : p = p' := Option.some.inj hpf
+  exact ⟨p, (mem_merged qs p).2 hp', hm s ((mem_gEx T E cl v s).2 ⟨hs, hsig.symm⟩)⟩
+
+/-- every pattern of a pass matches one of the working examples it was given -/
+theorem batchE_witness (T : CharTable) (hT : Consistent T) (o : Opts) (hsz : 1 ≤ o.sizes.maxStringsInGroup)
+    (E : List Char) (cl : Cleaned) (ps : List Pattern) (h : batchExtractE T o E cl = some ps) :
+    ∀ p ∈ ps, ∃ s ∈ cl.strings, Matches T E (wrapWs (decide (cl.nStripped > 0)) p) s := by
+  obtain ⟨qs, hqs, rfl⟩ := batchE_parts T o E cl ps h
+  intro p hp
+  obtain ⟨v, hv, hf⟩ := mapM_mem _ _ _ hqs p ((mem_merged qs p).1 hp)
+  obtain ⟨p', hp', hm⟩ := gF_sound T hT o hsz E cl v hv
+  rw [hp'] at hf
+  obtain rfl : p' = p := Option.some.inj hf
+  obtain ⟨s, hs⟩ := gEx_nonempty T E cl v hv
+  exact ⟨s, ((mem_gEx T E cl v s).1 hs).1, hm s hs⟩
+
+/-! ### the loop, one pass at a time -/
+
+/-- the failures of a pass -/
+def lF (T : CharTable) (E : List Char) (A : Cleaned) (ps : List Pattern) : List (Line × Nat) :=
+  nonMatches T E (decide (A.nStripped > 0)) ps (A.strings.zip A.freqs)
+
+/-- are the failures sampled? -/
+def lS1 (cfg : SampleCfg) (attempt : Nat) (F : List (Line × Nat)) : Bool :=
+  decide (attempt ≤ cfg.maxAttempts) && decide (F.length > cfg.doAllExceptions)
+
+/-- the failures looked at -/
+def lFail (cfg : SampleCfg) (pick : Pick) (attempt ev : Nat) (F : List (Line × Nat)) : List (Line × Nat) :=
+  if lS1 cfg attempt F then pick ev (max 1 cfg.doAllExceptions) F else F
+
+def lEv (cfg : SampleCfg) (attempt ev : Nat) (F : List (Line × Nat)) : Nat :=
+  if lS1 cfg attempt F then ev + 1 else ev
+
+theorem sampledLoop_zero (T : CharTable) (o : Opts) (cfg : SampleCfg) (pick : Pick) (A : Cleaned) (E : List Char)
+    (attempt ev : Nat) (W : Cleaned) : sampledLoop T o cfg pick A E 0 attempt ev W = none := rfl
+
+theorem sampledLoop_succ (T : CharTable) (o : Opts) (cfg : SampleCfg) (pick : Pick) (A : Cleaned) (E : List Char)
+    (fuel attempt ev : Nat) (W : Cleaned) :
+    sampledLoop T o cfg pick A E (fuel + 1) attempt ev W =
+      match batchExtractE T o E W with
+      | none => none
+      | some ps =>
+        if (lFail cfg pick attempt ev (lF T E A ps)).all (fun e => W.strings.contains e.1) then some ps
+        else if decide ((lFail cfg pick attempt ev (lF T E A ps)).length ≤ cfg.doAllExceptions) ||
+            !decide (attempt ≤ cfg.maxAttempts) then
+          sampledLoop T o cfg pick A E fuel (attempt + 1) (lEv cfg attempt ev (lF T E A ps))
+            (addTo W (lFail cfg pick attempt ev (lF T E A ps)))
+        else
+          sampledLoop T o cfg pick A E fuel (attempt + 1) (lEv cfg attempt ev (lF T E A ps) + 1)
+            (addTo W (pick (lEv cfg attempt ev (lF T E A ps)) cfg.doAllExceptions
+              (lFail cfg pick attempt ev (lF T E A ps)))) := rfl
+
+theorem mem_lF (T : CharTable) (E : List Char) (A : Cleaned) (ps : List Pattern) (e : Line × Nat) :
+    e ∈ lF T E A ps ↔ e ∈ A.strings.zip A.freqs ∧
+      ∀ p ∈ ps, matchB T E (wrapP (decide (A.nStripped > 0)) p) e.1 = false := by
+  unfold lF nonMatches
+  split
+  · rename_i hemp
+    have : ps = [] := by simpa [List.isEmpty_iff] using hemp
+    subst this
+    simp
+  · simp [List.mem_filter]
+
+theorem lF_fst_mem (T : CharTable) (E : List Char) (A : Cleaned) (ps : List Pattern) (e : Line × Nat)
+    (h : e ∈ lF T E A ps) : e.1 ∈ A.strings :=
+  (List.of_mem_zip (((mem_lF T E A ps e).1 h).1 : (e.1, e.2) ∈ A.strings.zip A.freqs)).1
+
+theorem lFail_sub {pick : Pick} (hp : PickOK pick) (cfg : SampleCfg) (attempt ev : Nat) (F : List (Line × Nat)) :
+    ∀ x ∈ lFail cfg pick attempt ev F, x ∈ F := by
+  unfold lFail
+  split
+  · exact (hp ev _ F).1
+  · exact fun x hx => hx
+
+theorem lFail_ne_nil {pick : Pick} (hp : PickOK pick) (cfg : SampleCfg) (attempt ev : Nat) (F : List (Line × Nat))
+    (hF : F ≠ []) : lFail cfg pick attempt ev F ≠ [] := by
+  unfold lFail
+  split
+  · exact (hp ev _ F).2 (Nat.le_max_left _ _) hF
+  · exact hF
+
+theorem addTo_strings (W : Cleaned) (xs : List (Line × Nat)) :
+    (addTo W xs).strings = W.strings ++ xs.map (·.1) := rfl
+
+theorem addTo_nStripped (W : Cleaned) (xs : List (Line × Nat)) : (addTo W xs).nStripped = W.nStripped := rfl
+
+theorem addTo_sub (A W : Cleaned) (xs : List (Line × Nat)) (hW : ∀ s ∈ W.strings, s ∈ A.strings)
+    (hxs : ∀ x ∈ xs, x.1 ∈ A.strings) : ∀ s ∈ (addTo W xs).strings, s ∈ A.strings := by
+  intro s hs
+  rw [addTo_strings, List.mem_append] at hs
+  rcases hs with hs | hs
+  · exact hW s hs
+  · obtain ⟨x, hx, rfl⟩ := List.mem_map.1 hs
+    exact hxs x hx
+
+/-- the state the loop ends in: working examples that are examples, the patterns extracted from them, and the
+    end-of-loop test passed -/
+theorem sampledLoop_final (T : CharTable) (o : Opts) (cfg : SampleCfg) (pick : Pick) (hp : PickOK pick)
+    (A : Cleaned) (E : List Char) (ps : List Pattern) :
+    ∀ (fuel attempt ev : Nat) (W : Cleaned), (∀ s ∈ W.strings, s ∈ A.strings) →
+      sampledLoop T o cfg pick A E fuel attempt ev W = some ps →
+      ∃ W' attempt' ev', (∀ s ∈ W'.strings, s ∈ A.strings) ∧ W'.nStripped = W.nStripped ∧
+        batchExtractE T o E W' = some ps ∧
+        (lFail cfg pick attempt' ev' (lF T E A ps)).all (fun e => W'.strings.contains e.1) = true := by
+  intro fuel
+  induction fuel with
+  | zero =>
+    intro attempt ev W _ h
+    rw [sampledLoop_zero] at h
+    cases h
+  | succ n ih =>
+    intro attempt ev W hW h
+    rw [sampledLoop_succ] at h
+    cases hb : batchExtractE T o E W with
+    | none => simp [hb] at h
+    | some qs =>
+      simp only [hb] at h
+      have hsubF : ∀ x ∈ lFail cfg pick attempt ev (lF T E A qs), x.1 ∈ A.strings :=
+        fun x hx => lF_fst_mem T E A qs x (lFail_sub hp cfg attempt ev _ x hx)
+      by_cases hall : (lFail cfg pick attempt ev (lF T E A qs)).all (fun e => W.strings.contains e.1) = true
+      · rw [if_pos hall] at h
+        obtain rfl : qs = ps := Option.some.inj h
+        exact ⟨W, attempt, ev, hW, rfl, hb, hall⟩
+      · rw [if_neg hall] at h
+        split at h
+        · obtain ⟨W', a', e', h1, h2, h3, h4⟩ := ih _ _ _ (addTo_sub A W _ hW hsubF) h
+          exact ⟨W', a', e', h1, h2, h3, h4⟩
+        · obtain ⟨W', a', e', h1, h2, h3, h4⟩ := ih _ _ _
+            (addTo_sub A W _ hW (fun x hx => hsubF x ((hp _ _ _).1 x hx))) h
+          exact ⟨W', a', e', h1, h2, h3, h4⟩
+
+theorem mem_zip_of_mem {α β : Type} : ∀ (l : List α) (l' : List β), l.length = l'.length → ∀ a ∈ l,
+    ∃ b, (a, b) ∈ l.zip l'
+  | [], _, _, a, ha => by cases ha
+  | x :: xs, [], h, _, _ => by simp at h
+  | x :: xs, y :: ys, h, a, ha => by
+    rcases List.mem_cons.1 ha with rfl | ha
+    · exact ⟨y, by simp⟩
+    · obtain ⟨b, hb⟩ := mem_zip_of_mem xs ys (by simpa using h) a ha
+      exact ⟨b, by simp [hb]⟩
+
+/-- when the loop ends, every (cleaned) example is matched in full by one of the patterns it ends with -/
+theorem sampledLoop_covers (T : CharTable) (hT : Consistent T) (o : Opts) (hsz : 1 ≤ o.sizes.maxStringsInGroup)
+    (cfg : SampleCfg) (pick : Pick) (hp : PickOK pick)
     (A : Cleaned) (E : List Char) (fuel attempt ev : Nat) (W : Cleaned) (hW : ∀ s ∈ W.strings, s ∈ A.strings)
+    (hns : 0 < W.nStripped → 0 < A.nStripped)
     (hlen : A.strings.length = A.freqs.length)
     (ps : List Pattern) (h : sampledLoop T o cfg pick A E fuel attempt ev W = some ps) :
     ∀ s ∈ A.strings, ∃ p ∈ ps, matchB T E (wrapP (decide (A.nStripped > 0)) p) s = true := by
-  sorry
+  obtain ⟨W', at', ev', hW', hn', hb, hall⟩ := sampledLoop_final T o cfg pick hp A E ps fuel attempt ev W hW h
+  have hsound := batchE_sound T hT o hsz E W' ps hb
+  -- a working example is never a failure
+  have hnotF : ∀ e ∈ lF T E A ps, e.1 ∉ W'.strings := by
+    intro e heF heW
+    obtain ⟨p, hpp, hm⟩ := hsound e.1 heW
+    have hfalse := ((mem_lF T E A ps e).1 heF).2 p hpp
+    have hm' : Matches T E (wrapWs (decide (A.nStripped > 0)) p) e.1 := by
+      by_cases hw : 0 < W'.nStripped
+      · have ha : 0 < A.nStripped := hns (hn' ▸ hw)
+        simpa [hw, ha] using hm
+      · have : p = wrapWs (decide (W'.nStripped > 0)) p := by simp [hw, wrapWs]
+        rw [← this] at hm
+        exact matches_wrap T E _ p e.1 hm
+    have := matchCap_complete T E _ e.1 hm'
+    rw [wrapP_eq_wrapWs, matchB, this] at hfalse
+    cases hfalse
+  -- so the end-of-loop test can only have passed with no failure at all
+  have hF : lF T E A ps = [] := by
+    by_contra hne
+    obtain ⟨e, he⟩ := List.exists_mem_of_ne_nil _ (lFail_ne_nil hp cfg at' ev' _ hne)
+    have heW : e.1 ∈ W'.strings := by simpa using (List.all_eq_true.1 hall) e he
+    exact hnotF e (lFail_sub hp cfg at' ev' _ e he) heW
+  intro s hs
+  obtain ⟨n, hn⟩ := mem_zip_of_mem A.strings A.freqs hlen s hs
+  by_contra hno
+  have : (s, n) ∈ lF T E A ps := by
+    rw [mem_lF]
+    refine ⟨hn, fun p hpp => ?_⟩
+    cases hmb : matchB T E (wrapP (decide (A.nStripped > 0)) p) s with
+    | false => rfl
+    | true => exact absurd ⟨p, hpp, hmb⟩ hno
+  rw [hF] at this
+  cases this
 
-/-- **soundness under sampling**: whatever the sampler returns, whatever the Size settings, every example that is
+/-! ### `extractSampled`, unfolded -/
+
+abbrev cA (o : Opts) (items : List (Option Line × Nat)) : Cleaned := clean o.stripOpt o.removeEmpties items
+
+def sEx (o : Opts) (items : List (Option Line × Nat)) : List (Line × Nat) := (cA o items).strings.zip (cA o items).freqs
+
+def sS0 (o : Opts) (cfg : SampleCfg) (items : List (Option Line × Nat)) : Bool :=
+  decide ((sEx o items).length > cfg.doAll) && decide ((sEx o items).length > cfg.doAllExceptions)
+
+def sFirst (o : Opts) (cfg : SampleCfg) (pick : Pick) (items : List (Option Line × Nat)) : List (Line × Nat) :=
+  if sS0 o cfg items then pick 0 (max 1 cfg.doAllExceptions) (sEx o items) else sEx o items
+
+def sW0 (o : Opts) (cfg : SampleCfg) (pick : Pick) (items : List (Option Line × Nat)) : Cleaned :=
+  { strings := (sFirst o cfg pick items).map (·.1), freqs := (sFirst o cfg pick items).map (fun _ => 1),
+    nStripped := (cA o items).nStripped }
+
+def sE (o : Opts) (cfg : SampleCfg) (pick : Pick) (items : List (Option Line × Nat)) : List Char :=
+  thinExtras o.extras (sW0 o cfg pick items).strings
+
+def pruned (T : CharTable) (o : Opts) (E : List Char) (A : Cleaned) (ps : List Pattern) : List Pattern :=
+  (List.range ps.length).filterMap (fun i =>
+    if (badPatterns o (reFreqs T E (decide (A.nStripped > 0)) ps A)).contains i then none else ps[i]?)
+
+theorem extractSampled_eq (T : CharTable) (o : Opts) (cfg : SampleCfg) (pick : Pick)
+    (items : List (Option Line × Nat)) :
+    extractSampled T o cfg pick items =
+      if (sW0 o cfg pick items).strings.isEmpty then some ([], [], false)
+      else
+        match sampledLoop T o cfg pick (cA o items) (sE o cfg pick items)
+            ((cA o items).strings.length + cfg.maxAttempts + 2) 1 (if sS0 o cfg items then 1 else 0)
+            (sW0 o cfg pick items) with
+        | none => none
+        | some ps => some (pruned T o (sE o cfg pick items) (cA o items) ps, sE o cfg pick items,
+            decide ((cA o items).nStripped > 0)) := rfl
+
+theorem mem_pruned (T : CharTable) (o : Opts) (E : List Char) (A : Cleaned) (ps : List Pattern) (p : Pattern)
+    (h : p ∈ pruned T o E A ps) : p ∈ ps := by
+  unfold pruned at h
+  rw [List.mem_filterMap] at h
+  obtain ⟨i, -, hi⟩ := h
+  split at hi
+  · cases hi
+  · exact List.mem_of_getElem? hi
+
+theorem pruned_nil (T : CharTable) (o : Opts) (hprune : o.maxPatterns = none ∧ o.minStrings ≤ 1) (E : List Char)
+    (A : Cleaned) (ps : List Pattern) : pruned T o E A ps = ps := by
+  unfold pruned
+  rw [badPatterns_nil o hprune]
+  simp [range_filterMap_getElem?]
+
+theorem clean_length (so re : Bool) (items : List (Option Line × Nat)) :
+    (clean so re items).strings.length = (clean so re items).freqs.length := by
+  have h1 : (clean so re items).strings = ((items.foldl (cleanStep so re) ([], 0)).1).map (·.1) := rfl
+  have h2 : (clean so re items).freqs = ((items.foldl (cleanStep so re) ([], 0)).1).map (·.2) := rfl
+  rw [h1, h2]
+  simp
+
+theorem sEx_fst (o : Opts) (items : List (Option Line × Nat)) : (sEx o items).map (·.1) = (cA o items).strings := by
+  unfold sEx
+  exact List.map_fst_zip (Nat.le_of_eq (clean_length _ _ items))
+
+theorem sEx_length (o : Opts) (items : List (Option Line × Nat)) : (sEx o items).length = (cA o items).strings.length := by
+  rw [← sEx_fst, List.length_map]
+
+theorem sFirst_sub {pick : Pick} (hp : PickOK pick) (o : Opts) (cfg : SampleCfg) (items : List (Option Line × Nat)) :
+    ∀ x ∈ sFirst o cfg pick items, x ∈ sEx o items := by
+  unfold sFirst
+  split
+  · exact (hp 0 _ _).1
+  · exact fun x hx => hx
+
+theorem sW0_sub {pick : Pick} (hp : PickOK pick) (o : Opts) (cfg : SampleCfg) (items : List (Option Line × Nat)) :
+    ∀ s ∈ (sW0 o cfg pick items).strings, s ∈ (cA o items).strings := by
+  intro s hs
+  obtain ⟨x, hx, rfl⟩ := List.mem_map.1 hs
+  have := sFirst_sub hp o cfg items x hx
+  rw [← sEx_fst]
+  exact List.mem_map.2 ⟨x, this, rfl⟩
+
+/-- with a sampler that returns something, no working examples means no examples -/
+theorem sW0_empty {pick : Pick} (hp : PickOK pick) (o : Opts) (cfg : SampleCfg) (items : List (Option Line × Nat))
+    (h : (sW0 o cfg pick items).strings = []) : (cA o items).strings = [] := by
+  have hf : sFirst o cfg pick items = [] := by simpa [sW0] using h
+  have hex : sEx o items = [] := by
+    unfold sFirst at hf
+    split at hf
+    · rename_i hs0
+      by_contra hne
+      exact (hp 0 _ _).2 (Nat.le_max_left _ _) hne hf
+    · exact hf
+  rw [← sEx_fst, hex]
+  rfl
+
+/-- **soundness under sampling**: whatever the sampler returns, every example that is
     not discarded is matched by one of the expressions returned (no pruning options) -/
-theorem extractSampled_sound (T : CharTable) (hT : Consistent T) (o : Opts) (cfg : SampleCfg) (pick : Pick)
+theorem extractSampled_sound (T : CharTable) (hT : Consistent T) (o : Opts)
+    (hsz : 1 ≤ o.sizes.maxStringsInGroup) (cfg : SampleCfg) (pick : Pick)
     (hp : PickOK pick) (hprune : o.maxPatterns = none ∧ o.minStrings ≤ 1) (items : List (Option Line × Nat))
     (ps : List Pattern) (E : List Char) (w : Bool) (h : extractSampled T o cfg pick items = some (ps, E, w)) :
     ∀ s ∈ keptExamples o items, ∃ p ∈ ps, Matches T E (wrapWs w p) s := by
-  sorry
+  have hkept : ∀ s ∈ keptExamples o items, ∃ n, (some s, n) ∈ items ∧ n ≠ 0 ∧
+      ¬ (o.removeEmpties = true ∧ (if o.stripOpt then strip s else s) = []) ∧
+      (if o.stripOpt then strip s else s) ∈ (cA o items).strings := by
+    intro s hs
+    obtain ⟨n, hit, hn, hre⟩ := mem_keptExamples o items s hs
+    exact ⟨n, hit, hn, hre, (clean_strings _ _ items _).2 ⟨s, n, hit, hn, rfl, hre⟩⟩
+  rw [extractSampled_eq] at h
+  by_cases hemp : (sW0 o cfg pick items).strings.isEmpty = true
+  · rw [if_pos hemp] at h
+    have hA := sW0_empty hp o cfg items (by simpa [List.isEmpty_iff] using hemp)
+    intro s hs
+    obtain ⟨n, -, -, -, hmem⟩ := hkept s hs
+    rw [hA] at hmem
+    cases hmem
+  · rw [if_neg hemp] at h
+    cases hl : sampledLoop T o cfg pick (cA o items) (sE o cfg pick items)
+        ((cA o items).strings.length + cfg.maxAttempts + 2) 1 (if sS0 o cfg items then 1 else 0)
+        (sW0 o cfg pick items) with
+    | none => simp [hl] at h
+    | some qs =>
+      simp only [hl, Option.some.injEq, Prod.mk.injEq] at h
+      obtain ⟨h1, h2, h3⟩ := h
+      rw [pruned_nil T o hprune] at h1
+      subst h1 h2 h3
+      have hcov := sampledLoop_covers T hT o hsz cfg pick hp (cA o items) (sE o cfg pick items) _ _ _ _
+        (sW0_sub hp o cfg items) (fun h => h) (clean_length _ _ items) qs hl
+      intro s hs
+      obtain ⟨n, hit, hn, hre, hmem⟩ := hkept s hs
+      obtain ⟨p, hpq, hmb⟩ := hcov _ hmem
+      obtain ⟨caps, hcaps⟩ := Option.isSome_iff_exists.1 hmb
+      have hmatch := (matchCap_sound T _ _ _ caps hcaps).2.2.2
+      rw [wrapP_eq_wrapWs] at hmatch
+      refine ⟨p, hpq, ?_⟩
+      by_cases hso : o.stripOpt = true
+      · rw [if_pos hso] at hmatch hre
+        apply matches_unstrip T hT _ _ p s _ hmatch
+        intro hw
+        have h0 : (clean o.stripOpt o.removeEmpties items).nStripped = 0 := by
+          have h' : ¬ ((clean o.stripOpt o.removeEmpties items).nStripped > 0) := of_decide_eq_false hw
+          omega
+        exact clean_nStripped_zero _ _ items h0 s n hit hn hso hre
+      · rw [if_neg hso] at hmatch
+        exact hmatch
 
-/-- the loop ends within the fuel the model gives it: each pass that does not end the loop either uses up one of
-    the sampled attempts or adds an example that was not among the working examples -/
+/-! ### termination -/
+
+/-- the examples that are not yet working examples -/
+def missing (A W : Cleaned) : Nat := (A.strings.filter (fun s => !W.strings.contains s)).length
+
+theorem missing_le (A W : Cleaned) : missing A W ≤ A.strings.length := List.length_filter_le _ _
+
+theorem filter_length_mono {α : Type} (p q : α → Bool) (hpq : ∀ a, p a = true → q a = true) :
+    ∀ l : List α, (l.filter p).length ≤ (l.filter q).length
+  | [] => by simp
+  | a :: l => by
+    have ih := filter_length_mono p q hpq l
+    simp only [List.filter_cons]
+    by_cases hpa : p a = true
+    · simp only [hpa, hpq a hpa, if_true, List.length_cons]; omega
+    · simp only [hpa, if_false, Bool.false_eq_true]
+      split
+      · simp only [List.length_cons]; omega
+      · exact ih
+
+theorem filter_length_lt {α : Type} (p q : α → Bool) (hpq : ∀ a, p a = true → q a = true) :
+    ∀ l : List α, (∃ a ∈ l, q a = true ∧ p a = false) → (l.filter p).length < (l.filter q).length
+  | [], h => by obtain ⟨a, ha, -⟩ := h; cases ha
+  | a :: l, h => by
+    have hmono := filter_length_mono p q hpq l
+    simp only [List.filter_cons]
+    by_cases hpa : p a = true
+    · have ih := filter_length_lt p q hpq l (by
+        obtain ⟨b, hb, hq, hpb⟩ := h
+        rcases List.mem_cons.1 hb with rfl | hb
+        · rw [hpa] at hpb; cases hpb
+        · exact ⟨b, hb, hq, hpb⟩)
+      simp only [hpa, hpq a hpa, if_true, List.length_cons]; omega
+    · simp only [hpa, if_false, Bool.false_eq_true]
+      by_cases hqa : q a = true
+      · simp only [hqa, if_true, List.length_cons]; omega
+      · have ih := filter_length_lt p q hpq l (by
+          obtain ⟨b, hb, hq, hpb⟩ := h
+          rcases List.mem_cons.1 hb with rfl | hb
+          · exact absurd hq hqa
+          · exact ⟨b, hb, hq, hpb⟩)
+        simp only [hqa, if_false, Bool.false_eq_true]
+        exact ih
+
+theorem missing_addTo_le (A W : Cleaned) (xs : List (Line × Nat)) : missing A (addTo W xs) ≤ missing A W := by
+  unfold missing
+  apply filter_length_mono
+  intro s hs
+  simp only [addTo_strings, Bool.not_eq_true', List.contains_eq_mem, List.mem_append,
+    decide_eq_false_iff_not, not_or] at hs ⊢
+  exact hs.1
+
+theorem missing_addTo_lt (A W : Cleaned) (xs : List (Line × Nat)) (e : Line × Nat) (he : e ∈ xs)
+    (heA : e.1 ∈ A.strings) (heW : e.1 ∉ W.strings) : missing A (addTo W xs) < missing A W := by
+  unfold missing
+  apply filter_length_lt
+  · intro s hs
+    simp only [addTo_strings, Bool.not_eq_true', List.contains_eq_mem, List.mem_append,
+      decide_eq_false_iff_not, not_or] at hs ⊢
+    exact hs.1
+  · refine ⟨e.1, heA, ?_, ?_⟩
+    · simpa using heW
+    · simp only [addTo_strings, Bool.not_eq_false', List.contains_eq_mem, List.mem_append, decide_eq_true_eq]
+      exact Or.inr (List.mem_map.2 ⟨e, he, rfl⟩)
+
+/-- the loop ends when given at least (sampled attempts left) + (examples not yet working examples) + 1 passes:
+    each pass that does not end the loop either uses up one of the sampled attempts or adds an example that
+    was not among the working examples.  (Nothing is assumed of the sampler, nor of the Size settings.) -/
+theorem sampledLoop_some (T : CharTable) (hT : Consistent T) (o : Opts) (cfg : SampleCfg) (pick : Pick)
+    (A : Cleaned) (E : List Char) :
+    ∀ (fuel attempt ev : Nat) (W : Cleaned),
+      (cfg.maxAttempts + 1 - attempt) + missing A W + 1 ≤ fuel →
+      ∃ ps, sampledLoop T o cfg pick A E fuel attempt ev W = some ps := by
+  intro fuel
+  induction fuel with
+  | zero => intro attempt ev W h; omega
+  | succ n ih =>
+    intro attempt ev W hfuel
+    obtain ⟨ps, hb⟩ := batchE_some T hT o E W
+    rw [sampledLoop_succ]
+    simp only [hb]
+    by_cases hall : (lFail cfg pick attempt ev (lF T E A ps)).all (fun e => W.strings.contains e.1) = true
+    · exact ⟨ps, by rw [if_pos hall]⟩
+    · rw [if_neg hall]
+      by_cases hsamp : attempt ≤ cfg.maxAttempts
+      · -- a sampled attempt is used up
+        split
+        · apply ih
+          have := missing_addTo_le A W (lFail cfg pick attempt ev (lF T E A ps))
+          omega
+        · apply ih
+          have := missing_addTo_le A W (pick (lEv cfg attempt ev (lF T E A ps)) cfg.doAllExceptions
+              (lFail cfg pick attempt ev (lF T E A ps)))
+          omega
+      · -- all the failures become working examples, and one of them was not
+        have hs1 : lS1 cfg attempt (lF T E A ps) = false := by simp [lS1, hsamp]
+        have hfail : lFail cfg pick attempt ev (lF T E A ps) = lF T E A ps := by simp [lFail, hs1]
+        rw [hfail] at hall ⊢
+        have hc : (decide ((lF T E A ps).length ≤ cfg.doAllExceptions) || !decide (attempt ≤ cfg.maxAttempts)) = true := by
+          simp [hsamp]
+        rw [if_pos hc]
+        apply ih
+        have hex : ∃ e ∈ lF T E A ps, e.1 ∉ W.strings := by
+          by_contra hno
+          apply hall
+          rw [List.all_eq_true]
+          intro e he
+          by_contra hne
+          exact hno ⟨e, he, by simpa using hne⟩
+        obtain ⟨e, he, heW⟩ := hex
+        have := missing_addTo_lt A W (lF T E A ps) e he (lF_fst_mem T E A ps e he) heW
+        omega
+
+/-- the loop ends within the fuel the model gives it -/
 theorem extractSampled_terminates (T : CharTable) (hT : Consistent T) (o : Opts)
-    (hsz : 1 ≤ o.sizes.maxStringsInGroup) (cfg : SampleCfg) (pick : Pick) (hp : PickOK pick)
+    (cfg : SampleCfg) (pick : Pick)
     (items : List (Option Line × Nat)) : ∃ r, extractSampled T o cfg pick items = some r := by
-  sorry
+  rw [extractSampled_eq]
+  split
+  · exact ⟨_, rfl⟩
+  · obtain ⟨ps, hps⟩ := sampledLoop_some T hT o cfg pick (cA o items) (sE o cfg pick items)
+      ((cA o items).strings.length + cfg.maxAttempts + 2) 1 (if sS0 o cfg items then 1 else 0)
+      (sW0 o cfg pick items) (by
+        have := missing_le (cA o items) (sW0 o cfg pick items)
+        omega)
+    rw [hps]
+    exact ⟨_, rfl⟩
 
 /-- every returned pattern still matches one of the examples (it was extracted from working examples, which are examples) -/
 theorem extractSampled_witness (T : CharTable) (hT : Consistent T) (o : Opts)
@@ -46,7 +646,29 @@ theorem extractSampled_witness (T : CharTable) (hT : Consistent T) (o : Opts)
     (items : List (Option Line × Nat)) (ps : List Pattern) (E : List Char) (w : Bool)
     (h : extractSampled T o cfg pick items = some (ps, E, w)) :
     ∀ p ∈ ps, ∃ s ∈ (clean o.stripOpt o.removeEmpties items).strings, Matches T E (wrapWs w p) s := by
-  sorry
+  rw [extractSampled_eq] at h
+  by_cases hemp : (sW0 o cfg pick items).strings.isEmpty = true
+  · rw [if_pos hemp] at h
+    simp only [Option.some.injEq, Prod.mk.injEq] at h
+    obtain ⟨rfl, -, -⟩ := h
+    intro p hp'
+    cases hp'
+  · rw [if_neg hemp] at h
+    cases hl : sampledLoop T o cfg pick (cA o items) (sE o cfg pick items)
+        ((cA o items).strings.length + cfg.maxAttempts + 2) 1 (if sS0 o cfg items then 1 else 0)
+        (sW0 o cfg pick items) with
+    | none => simp [hl] at h
+    | some qs =>
+      simp only [hl, Option.some.injEq, Prod.mk.injEq] at h
+      obtain ⟨h1, h2, h3⟩ := h
+      subst h1 h2 h3
+      obtain ⟨W', at', ev', hW', hn', hb, -⟩ := sampledLoop_final T o cfg pick hp (cA o items) (sE o cfg pick items) qs
+        _ _ _ _ (sW0_sub hp o cfg items) hl
+      intro p hpp
+      obtain ⟨s, hs, hm⟩ := batchE_witness T hT o hsz _ W' qs hb p (mem_pruned T o _ _ qs p hpp)
+      have hn'' : W'.nStripped = (cA o items).nStripped := hn'
+      rw [hn''] at hm
+      exact ⟨s, hW' s hs, hm⟩
 
 /-- below the thresholds nothing is sampled and the result is the batch result -/
 theorem extractSampled_eq_extract (T : CharTable) (hT : Consistent T) (o : Opts) (hsz : 1 ≤ o.sizes.maxStringsInGroup)
@@ -54,6 +676,82 @@ theorem extractSampled_eq_extract (T : CharTable) (hT : Consistent T) (o : Opts)
     (items : List (Option Line × Nat))
     (hsmall : (clean o.stripOpt o.removeEmpties items).strings.length ≤ cfg.doAll) :
     extractSampled T o cfg pick items = extract T o items := by
-  sorry
+  have hs0 : sS0 o cfg items = false := by
+    have := sEx_length o items
+    simp only [sS0, this, Bool.and_eq_false_iff, decide_eq_false_iff_not]
+    left
+    have : (cA o items).strings.length ≤ cfg.doAll := hsmall
+    omega
+  have hfirst : sFirst o cfg pick items = sEx o items := by simp [sFirst, hs0]
+  have hWs : (sW0 o cfg pick items).strings = (cA o items).strings := by
+    simp only [sW0, hfirst]
+    exact sEx_fst o items
+  have hE : sE o cfg pick items = thinExtras o.extras (cA o items).strings := by rw [sE, hWs]
+  have hWb : ∀ E, batchExtractE T o E (sW0 o cfg pick items) = batchExtractE T o E (cA o items) :=
+    fun E => batchExtractE_congr T o E _ _ hWs rfl
+  rw [extractSampled_eq, hWs, hs0]
+  unfold extract
+  show (if (cA o items).strings.isEmpty = true then _ else _) = (if (cA o items).strings.isEmpty = true then _ else _)
+  by_cases hemp : (cA o items).strings.isEmpty = true
+  · rw [if_pos hemp, if_pos hemp]
+  · rw [if_neg hemp, if_neg hemp]
+    rw [batchExtract_eq_E, ← hE, sampledLoop_succ, hWb]
+    cases hb : batchExtractE T o (sE o cfg pick items) (cA o items) with
+    | none => rfl
+    | some ps =>
+      -- the batch result covers all the examples, so there is no failure and the loop ends at once
+      have hsound := batchE_sound T hT o hsz _ (cA o items) ps hb
+      have hF : lF T (sE o cfg pick items) (cA o items) ps = [] := by
+        rw [List.eq_nil_iff_forall_not_mem]
+        intro e he
+        obtain ⟨p, hpp, hm⟩ := hsound e.1 (lF_fst_mem _ _ _ _ e he)
+        have hfalse := ((mem_lF _ _ _ _ e).1 he).2 p hpp
+        have := matchCap_complete T _ _ e.1 hm
+        rw [wrapP_eq_wrapWs, matchB, this] at hfalse
+        cases hfalse
+      have hfail : lFail cfg pick 1 (if false = true then 1 else 0) (lF T (sE o cfg pick items) (cA o items) ps) = [] := by
+        simp [lFail, lS1, hF]
+      simp only [hfail, List.all_nil, if_true, Option.map_some]
+      rfl
+
+/-- the same with an honest sampler in place of soundness of a pass (no assumption on the character table or the
+    Size settings): every failure is one of the examples, all of which are working examples -/
+theorem extractSampled_eq_extract_of_pick (T : CharTable) (o : Opts)
+    (cfg : SampleCfg) (pick : Pick) (hp : PickOK pick)
+    (items : List (Option Line × Nat))
+    (hsmall : (clean o.stripOpt o.removeEmpties items).strings.length ≤ cfg.doAll) :
+    extractSampled T o cfg pick items = extract T o items := by
+  have hs0 : sS0 o cfg items = false := by
+    have := sEx_length o items
+    simp only [sS0, this, Bool.and_eq_false_iff, decide_eq_false_iff_not]
+    left
+    have : (cA o items).strings.length ≤ cfg.doAll := hsmall
+    omega
+  have hfirst : sFirst o cfg pick items = sEx o items := by simp [sFirst, hs0]
+  have hWs : (sW0 o cfg pick items).strings = (cA o items).strings := by
+    simp only [sW0, hfirst]
+    exact sEx_fst o items
+  have hE : sE o cfg pick items = thinExtras o.extras (cA o items).strings := by rw [sE, hWs]
+  have hWb : ∀ E, batchExtractE T o E (sW0 o cfg pick items) = batchExtractE T o E (cA o items) :=
+    fun E => batchExtractE_congr T o E _ _ hWs rfl
+  rw [extractSampled_eq, hWs, hs0]
+  unfold extract
+  show (if (cA o items).strings.isEmpty = true then _ else _) = (if (cA o items).strings.isEmpty = true then _ else _)
+  by_cases hemp : (cA o items).strings.isEmpty = true
+  · rw [if_pos hemp, if_pos hemp]
+  · rw [if_neg hemp, if_neg hemp]
+    rw [batchExtract_eq_E, ← hE, sampledLoop_succ, hWb, hWs]
+    cases hb : batchExtractE T o (sE o cfg pick items) (cA o items) with
+    | none => rfl
+    | some ps =>
+      have hall : (lFail cfg pick 1 (if false = true then 1 else 0) (lF T (sE o cfg pick items) (cA o items) ps)).all
+          (fun e => (cA o items).strings.contains e.1) = true := by
+        rw [List.all_eq_true]
+        intro e he
+        have := lF_fst_mem _ _ _ _ e (lFail_sub hp cfg _ _ _ e he)
+        simpa using this
+      simp only [hall, if_true, Option.map_some]
+      rfl
 
 end TddaVerif.Props.C03.SampledLemmas
+
